@@ -49,6 +49,35 @@ def systematic():
 CLASSES = {"items", "items-valid", "optional-absent", "null-allowed", "valid"}
 
 
+def null_and_deep_cases():
+    """a null array is never length-checked (required or not, nullable or not); arrays nested three levels deep, the same limits at every level, with inner
+    arrays longer than the outer one"""
+    from vlib.kitchen import Case
+    out = []
+    arr = {"type": "array", "items": {"type": "string"}, "minItems": 2, "maxItems": 4}
+    for ni, (req, tl) in enumerate(((True, "array"), (False, "array"), (True, ["array", "null"]), (False, ["null", "array"]))):
+        root = {"type": "object", "properties": {"tracks": dict(arr, type=tl), "aliases": dict(arr)}}
+        if req:
+            root["required"] = ["tracks"]
+        docs = [{"doc": {"tracks": None}, "cls": "null-allowed", "path": ("tracks",), "expect": "ACC"}, {"doc": {"tracks": None, "aliases": None}, "cls": "null-allowed", "path": ("tracks",), "expect": "ACC"},
+                {"doc": {"tracks": ["a", "b"]}, "cls": "items-valid", "path": ("tracks",), "expect": "ACC"}, {"doc": {"tracks": ["a"]}, "cls": "items", "path": ("tracks",), "expect": "REJ"},
+                {"doc": {"tracks": ["a", "b"], "aliases": ["a", "b", "c", "d", "e"]}, "cls": "items", "path": ("aliases",), "expect": "REJ"}]
+        for wire in ("json", "yaml"):
+            out.append(Case("c07nl%d%s" % (ni, wire), root, [dict(d) for d in docs], fam="null-arrays/%s" % wire, extra_imports=True, wire=wire, no_model=True))
+    for li, lim in enumerate(({"minItems": 1, "maxItems": 4}, {"maxItems": 3}, {"minItems": 2})):
+        cube = dict({"type": "array", "items": dict({"type": "array", "items": dict({"type": "array", "items": {"type": "integer"}}, **lim)}, **lim)}, **lim)
+        root = {"type": "object", "properties": {"cube": cube}, "required": ["cube"]}
+        mn, mx = lim.get("minItems", 0), lim.get("maxItems", 99)
+        ok = lambda n: mn <= n <= mx        # noqa: E731
+        docs = []
+        for a, b, c in ((1, 3, 1), (1, 2, 3), (2, 2, 2), (3, 1, 4), (1, 4, 5), (1, 5, 1), (5, 1, 1), (2, 3, 4), (1, 1, 1), (4, 4, 4), (2, 1, 2), (3, 3, 0)):
+            v = [[[7] * c for _ in range(b)] for _ in range(a)]
+            good = ok(a) and ok(b) and ok(c)
+            docs.append({"doc": {"cube": v}, "cls": "items-valid" if good else "items", "path": ("cube",), "expect": "ACC" if good else "REJ"})
+        out.append(Case("c07dp%d" % li, root, docs, fam="depth-3/%s" % json.dumps(lim), no_model=True))
+    return out
+
+
 def contradictory_cases():
     """limits that leave no admissible length (minItems > maxItems): every present array is invalid, whatever its length; absent and (where allowed) null still pass"""
     from vlib.kitchen import Case
@@ -94,7 +123,7 @@ def run(ctx):
     cases = build_cases(ctx, len(sysm) + n, ["array"], CLASSES | {"type"}, "c07x", extra_schemas=sysm, docs_per=2 if ctx.tier == "quick" else 4)
     from vlib.overlay import overlay_cases
     cases = cases + overlay_cases("items", "c07")
-    ct = contradictory_cases()
+    ct = contradictory_cases() + null_and_deep_cases()
     run_cases(ctx, cases + ct, "c07")
     nct = 0
     for c in ct:
